@@ -4,19 +4,19 @@ import vlib
 
 META = {
     "id": "C35",
-    "engine": "",
+    "engine": "irmember",
     "design_ref": "5/C35, 4.3",
-    "coq_targets": ["Props/Properties_C35.vo"],
-    "coq_files": ["Prog/IR.v", "Prog/IRProofs.v", "Prog/Tables_C35.v", "Props/Properties_C35.v"],
-    "theorems": ["C35_static", "C35_non_member_never_acts", "C35_shapes_refuse_non_members", "C35_lookup_failure_is_non_member"],
-    "technique": "Coq: dominance checker over a handler IR proved sound once; the IR of pkg/innerring and all processors is regenerated from the Go source by the translator xlate on every run and the obligations are re-checked by vm_compute (translation tie, no differential run)",
+    "coq_targets": ["Props/Properties_C35.vo", "Prog/C35Member.vo"],
+    "coq_files": ["Prog/IR.v", "Prog/IRProofs.v", "Prog/Tables_C35.v", "Prog/C35Member.v", "Prog/C35MemberProofs.v", "Props/Properties_C35.v"],
+    "theorems": ["C35_static", "C35_non_member_never_acts", "C35_shapes_refuse_non_members", "C35_lookup_failure_is_non_member", "C35_is_alphabet_iff", "C35_non_member_index_negative"],
+    "technique": "Coq: dominance checker over a handler IR proved sound once; the IR of pkg/innerring and all processors is regenerated from the Go source by the translator xlate on every run and the obligations are re-checked by vm_compute (translation tie); the membership getters IsAlphabet/AlphabetIndex/InnerRingIndex are modelled, proved and tied by a differential run over generated key lists and lookup failures",
     "level_text": "Quantifier = programs. Every function of pkg/innerring and pkg/innerring/processors/* is translated to the IR on each run; entry points are all functions that no analysed function calls "
                   "(notification, notary-request and timer handlers, startup, exported methods), so a newly added handler is included automatically. C35_static (vm_compute on the regenerated IR): from every entry point, "
                   "with calls inlined to depth 5 and deeper calls treated as needing the check, every chain transaction that needs alphabet authority (Invoke/NotaryInvoke/NotarySignAndInvokeTX/TransferGas/NewEpoch/Mint/Burn/Lock/Cheque/...) "
                   "is dominated by a membership check (IsAlphabet / AlphabetIndex / InnerRingIndex) whose source shape is one of the accepted ones; C35_shapes_refuse_non_members proves those shapes refuse every negative index "
                   "(-1 is what the getters return for a non-member or a failed lookup, C35_lookup_failure_is_non_member); C35_non_member_never_acts lifts this through the soundness theorem to all executions.",
     "level_note": "partial: (1) the clause 'an alphabet member acts on each event at most once' is not modelled (it lives in the notary/event de-duplication of pkg/morph and the chain itself); "
-                  "(2) no differential run: the processors hold concrete morph clients that cannot be faked without a chain, so the tie is the translator alone. Trusted: Coq kernel + vm_compute; xlate (syntactic; "
+                  "(2) the handlers are not run: the processors hold concrete morph clients that cannot be faked without a chain, so for them the tie is the translator alone; the membership getters are run for real (hook VerifMembership). Trusted: Coq kernel + vm_compute; xlate (syntactic; "
                   "unresolvable calls are named effects); Prog/Tables_C35.v (list of authority-needing call suffixes, accepted check shapes and their meaning, exclusion of the operator-triggered control call Server.SignNotary).",
     "trusted_base": ["Coq 8.16.1 kernel, vm_compute", "xlate translator", "Prog/Tables_C35.v tables"],
     "assumptions": ["chain calls are recognised by method-name suffix on morph client wrappers", "inlining depth 5; un-inlined internal calls count as critical"],
@@ -36,6 +36,39 @@ def regen(ctx):
     if rc != 0:
         ctx.notes.append("xlate failed: " + e[-2000:])
     return rc == 0
+
+
+def member_tie(ctx):
+    binp = ctx.go_build()
+    rs = ctx.run_json([binp])
+    if not ctx.model_ready(["Prog/C35Member.vo"]):
+        ctx.tie(False)
+        return
+    def term(r):
+        return "(%d, %s, %s, %s, %s, (%s, %s, (%d)%%Z, (%d)%%Z, (%d)%%Z))" % (
+            r["own"], vlib.coq_list(r["ir"]), vlib.coq_list(r["alpha"]), vlib.coq_bool(r["fail_ir"]), vlib.coq_bool(r["fail_alpha"]),
+            vlib.coq_bool(r["is_alpha"]), vlib.coq_bool(r["is_active"]), r["alpha_idx"], r["ir_idx"], r["ir_size"])
+    jobs, offs = [], []
+    for off in range(0, len(rs), 600):
+        jobs.append(("mem", "From NV Require Import Prog.C35Member.\nFrom Coq Require Import List ZArith. Import ListNotations.\n"
+                     "Definition cases : list case := %s.\n" % vlib.coq_list(rs[off:off + 600], term),
+                     {"mm": "mismatch_idx cases", "ref": "ref_violation_idx cases"}))
+        offs.append(off)
+    bad_m, bad_r = [], []
+    for off, res in zip(offs, ctx.coq_eval_many(jobs)):
+        if res is None:
+            ctx.tie(False)
+            return
+        bad_m += [off + i for i in res["mm"]]
+        bad_r += [off + i for i in res["ref"]]
+    ctx.tie(not bad_m)
+    ctx.tie(not bad_r)
+    for i in bad_r[:5]:
+        ctx.violation({"membership": rs[i], "why": "a node outside the alphabet list (or with a failed lookup) is reported as alphabet member / non-negative index"})
+    for i in [j for j in bad_m if j not in bad_r][:5]:
+        ctx.notes.append("membership getters differ from the model (no property violation on this input): %r" % (rs[i],))
+    ctx.cov["membership_cases"] = len(rs)
+    ctx.cov["membership_distinct"] = vlib.distinct_count([{k: r[k] for k in ("own", "ir", "alpha", "fail_ir", "fail_alpha")} for r in rs])
 
 
 def run(ctx):
@@ -64,6 +97,7 @@ def run(ctx):
                        "checks_with_unaccepted_shape": bad.group(2) if bad else "",
                        "why": "an entry point reaches a chain transaction needing alphabet authority without an accepted membership check "
                               "(for a range-only check the witness is index = -1, see C35_range_only_shape_refuted)"})
+    member_tie(ctx)
     ctx.cov.update({
         "programs": roots,
         "evaluations": nfuncs,
